@@ -1,9 +1,11 @@
 """C07 -- per-test leak verdict: leaking tests fail, clean ones pass, blame is correct.
-Scenario:  <mode> <tbd> <ntests> { <before> <setup> <body> <teardown> } <tail>
+Scenario:  <mode> <tbd> <pre> <ntests> { <before> <ipre> <setup> <body> <teardown> <ipost> } <tail>
    list ::= <n> stmt*n      stmt ::= :a id size kind | :f id | :x | :e n | :i
    mode 0 = local detector handed to the plugin (blocks through allocMemory/deallocMemory), 1 = fresh global detector (blocks
-   through operator new / new [] / cpputest_malloc); tbd = FinalReport(toBeDeletedLeaks); <before> = statements another plugin's
-   pre-action runs before the leak plugin's; <tail> = statements after the last test, before FinalReport.
+   through operator new / new [] / cpputest_malloc); tbd = FinalReport(toBeDeletedLeaks); <pre> = statements run before the plugin
+   is created (detector disabled); <before> = pre-action of a plugin installed after the leak plugin (runs before the leak
+   plugin's pre-action); <ipre>/<ipost> = pre-/post-action of a plugin installed before the leak plugin (run inside the checking
+   window; :x there adds a failure without leaving); <tail> = statements after the last test, before FinalReport.
 Observation: <err> <ntests> { nfail nleak noleaks many total k (ordinal size)^k } <stray> <empty> <noleaks> <many> <total> k (ordinal size)^k"""
 ID = "C07"
 FLAVOURS = ["asan"]
@@ -11,10 +13,12 @@ HARNESS_SRCS = ["harness/C07.cpp"]
 PER_TIMEOUT = 20.0
 CRASH_IS_VIOLATION = True
 RULE = ("random programs of 1-30 scripted tests (both ways of reaching the detector), each with 0-12 allocations/releases by block id "
-        "spread over setup/body/teardown and the pre-action of another plugin; ~40% of the releases name blocks of earlier tests or of "
-        "code outside tests; block ids (addresses) are reused after release; an own failing check at any position of any phase "
-        "(skipping the rest of the phase, and the body after a failed setup); EXPECT_N_LEAKS with n in {0, L, L-1, L+1, random} at any "
-        "position (also after the failing check, also several), IGNORE_ALL_LEAKS_IN_TEST; leaks placed in each of the three phases; "
+        "spread over setup/body/teardown, the pre-action of a plugin that runs before the leak plugin's, and the pre/post actions of a "
+        "plugin that runs inside the checking window (which may also report failures and declare leaks); blocks obtained before the plugin "
+        "exists; ~40% of the releases name blocks of earlier tests or of code outside tests; block ids (addresses) are reused after "
+        "release; an own failing check at any position of any phase (skipping the rest of the phase, and the body after a failed setup, "
+        "with statements that must not run placed behind it); EXPECT_N_LEAKS with n in {0, L, L-1, L+1, random} at any position (also "
+        "behind the failing check, also twice), IGNORE_ALL_LEAKS_IN_TEST (also twice); leaks placed in each of the three phases; "
         "FinalReport(k) with k in {0, outstanding, outstanding+-1}; reports kept below the 4096-byte buffer. "
         "non-trivial = at least two tests, one block outliving its test and one release of an earlier test's block or an expectation")
 ASSUMPTIONS = ["new/delete overloads are on (otherwise the plugin only prints a warning)",
@@ -41,21 +45,25 @@ def parse(s):
             pos[0] += 1 + ar
         return out
     mode, tbd = int(t[0], 16), int(t[1], 16)
+    pre = lst()
     nt = int(t[pos[0]], 16)
     pos[0] += 1
     tests = []
     for _ in range(nt):
-        tests.append([lst(), lst(), lst(), lst()])
+        tests.append([lst(), lst(), lst(), lst(), lst(), lst()])
     tail = lst()
-    return mode, tbd, tests, tail
+    return mode, tbd, pre, tests, tail
 
 
 def fmt_list(l):
     return " ".join(["%x" % len(l)] + [" ".join([st[0]] + ["%x" % v for v in st[1:]]) for st in l])
 
 
-def fmt(mode, tbd, tests, tail):
-    return " ".join(["%x %x %x" % (mode, tbd, len(tests))] + [" ".join(fmt_list(p) for p in t) for t in tests] + [fmt_list(tail)])
+def fmt(mode, tbd, pre, tests, tail):
+    return " ".join(["%x %x" % (mode, tbd), fmt_list(pre), "%x" % len(tests)] + [" ".join(fmt_list(p) for p in t) for t in tests] + [fmt_list(tail)])
+
+
+BEFORE, IPRE, SETUP, BODY, TEARDOWN, IPOST = range(6)
 
 
 def upto_fail(l):
@@ -68,9 +76,9 @@ def upto_fail(l):
 
 
 def executed(t):
-    a, fa = upto_fail(t[1])
-    b = [] if fa else upto_fail(t[2])[0]
-    return a + b + upto_fail(t[3])[0]
+    a, fa = upto_fail(t[SETUP])
+    b = [] if fa else upto_fail(t[BODY])[0]
+    return t[IPRE] + a + b + upto_fail(t[TEARDOWN])[0] + t[IPOST]
 
 
 def leaked(base, l):
@@ -102,14 +110,14 @@ def trace(tests, tail):
     return tr + tail
 
 
-def py_valid(tests, tail):
+def py_valid(pre, tests, tail):
     live = set()
     for t in tests:
         if any(st[0] not in (":a", ":f") for st in t[0]):
             return False
-    if any(st[0] not in (":a", ":f") for st in tail):
+    if any(st[0] not in (":a", ":f") for st in tail + pre):
         return False
-    for st in trace(tests, tail):
+    for st in pre + trace(tests, tail):
         if st[0] == ":a":
             if st[1] in live or st[1] >= MAXID or st[2] > 64 or st[3] > 2:
                 return False
@@ -130,9 +138,9 @@ def gen_program(rng, big=False):
     maxops = rng.choice([2, 4, 6, 12])
     idpool = rng.choice([4, 8, 40, 200])         # small pools force address reuse
     p_fail = rng.choice([0.0, 0.15, 0.3, 0.6])
-    live = {}                                    # id -> index of the test that allocated it (-1: outside any test)
+    p_inner = rng.choice([0.0, 0.0, 0.3, 0.7])   # how often the inner plugin does something
+    live = {}                                    # id -> index of the test that allocated it (-1: outside any test, -2: before the plugin)
     tests = []
-    base = 1
 
     def size():
         return rng.choice([0, 1, 1, 2, 3, 8, 16]) if rng.random() < 0.9 else rng.randrange(17, 65)
@@ -160,6 +168,9 @@ def gen_program(rng, big=False):
         live.pop(i, None)
         return (":f", i)
 
+    def mem_ops(n, owner, p_old):
+        return [st for st in (mem_op(owner, p_old) for _ in range(n)) if st]
+
     def junk():
         """a statement that never runs (behind a failing check): anything, also allocations of ids in use"""
         c = rng.random()
@@ -183,12 +194,23 @@ def gen_program(rng, big=False):
                     ops.append(st)
         return ops, dead
 
+    def inner(owner):
+        """action of the inner plugin: a few blocks, sometimes a failure it reports (the action goes on)"""
+        if rng.random() >= p_inner:
+            return []
+        ops = mem_ops(rng.choice([0, 1, 1, 2]), owner, 0.3)
+        if rng.random() < 0.3:
+            ops.insert(rng.randrange(len(ops) + 1), (":x",))
+        return ops
+
+    pre = mem_ops(rng.choice([0, 0, 0, 1, 2, 4]), -2, 0.3)
+    base = 1 + allocs(pre)
     for ti in range(nt):
         saved = dict(live)
         for _attempt in range(30):
             live.clear()
             live.update(saved)
-            before = [st for st in (mem_op(-1, 0.5) for _ in range(rng.choice([0, 0, 0, 1, 2]))) if st]
+            before = mem_ops(rng.choice([0, 0, 0, 1, 2]), -1, 0.5)
             n = rng.randrange(maxops + 1)
             cut = sorted(rng.randrange(n + 1) for _ in range(2))
             style = rng.random()
@@ -200,39 +222,44 @@ def gen_program(rng, big=False):
                 cut = [0, 0]          # everything in teardown
             sizes = [cut[0], cut[1] - cut[0], n - cut[1]]
             fails = [rng.randrange(sizes[p] + 1) if rng.random() < p_fail / (1 if p == 1 else 2) else -1 for p in range(3)]
+            ipre = inner(ti)
             s0, d0 = phase(sizes[0], ti, False, fails[0])
             s1, _ = phase(sizes[1], ti, d0, fails[1])
             s2, _ = phase(sizes[2], ti, False, fails[2])
-            t = [before, s0, s1, s2]
+            ipost = inner(ti)
+            t = [before, ipre, s0, s1, s2, ipost]
             L = leaked(base + allocs(before), executed(t))
             if report_bytes(L) <= 3000:
                 break
         else:
             live.clear()
             live.update(saved)
-            t = [[], [], [], []]
+            t = [[], [], [], [], [], []]
             L = []
-        # flags: the number declared relative to the number really leaked; anywhere, also behind the failing check
+        # declarations: the number declared relative to the number really leaked; anywhere, also behind the failing check,
+        # also by the inner plugin; the ignore request sometimes twice
         nl = len(L)
         if rng.random() < 0.55:
             for _ in range(rng.choice([1, 1, 2])):
                 n = rng.choice([nl, nl, max(nl - 1, 0), nl + 1, 0, rng.randrange(6)])
-                p = rng.randrange(1, 4)
+                p = rng.choice([SETUP, BODY, TEARDOWN, BODY, IPRE, IPOST])
                 t[p].insert(rng.randrange(len(t[p]) + 1), (":e", n))
-        if rng.random() < 0.15:
-            p = rng.randrange(1, 4)
-            t[p].insert(rng.randrange(len(t[p]) + 1), (":i",))
+        if rng.random() < 0.2:
+            for _ in range(rng.choice([1, 1, 2])):
+                p = rng.choice([SETUP, BODY, TEARDOWN, BODY, IPRE, IPOST])
+                t[p].insert(rng.randrange(len(t[p]) + 1), (":i",))
         base += allocs(t[0]) + allocs(executed(t))
         tests.append(t)
-    tail = [st for st in (mem_op(-1, 0.7) for _ in range(rng.choice([0, 0, 1, 3]))) if st]
+    tail = mem_ops(rng.choice([0, 0, 1, 3]), -1, 0.7)
     # release blocks in the tail until the final report fits the buffer
-    while report_bytes(leaked(1, trace(tests, tail))) > 3000 and live:
+    b0 = 1 + allocs(pre)
+    while report_bytes(leaked(b0, trace(tests, tail))) > 3000 and live:
         i = rng.choice(sorted(live))
         del live[i]
         tail.append((":f", i))
-    out = leaked(1, trace(tests, tail))
+    out = leaked(b0, trace(tests, tail))
     tbd = rng.choice([0, 0, len(out), len(out), max(len(out) - 1, 0), len(out) + 1])
-    return fmt(mode, tbd, tests, tail)
+    return fmt(mode, tbd, pre, tests, tail)
 
 
 def generate(tier, rng):
@@ -240,21 +267,32 @@ def generate(tier, rng):
     n = 700 if tier == "quick" else 40000
     for k in range(n):
         s = gen_program(rng, big=(k % 10 == 9))
-        m, tbd, tests, tail = parse(s)
-        if not py_valid(tests, tail):
+        m, tbd, pre, tests, tail = parse(s)
+        if not py_valid(pre, tests, tail):
             raise RuntimeError("generator produced an invalid program: " + s)
         out.append(s)
     return out
 
 
 # ----------------------------------------------------------------------------- evidence / failures
+def test_facts(base, t):
+    ex = executed(t)
+    L = leaked(base, ex)
+    own = sum(1 for st in ex if st[0] == ":x")
+    ign = any(st[0] == ":i" for st in ex)
+    d = declared(ex)
+    cls = ("own-failed" if own else "ignore" if ign else "leaks=expected=0" if len(L) == d == 0 else
+           "leaks=expected>0" if len(L) == d else "leaks>expected" if len(L) > d else "leaks<expected")
+    return ex, L, own, ign, d, cls
+
+
 def nontrivial(s):
-    _, _, tests, tail = parse(s)
+    _, _, pre, tests, tail = parse(s)
     if len(tests) < 2:
         return False
-    base = 1
+    base = 1 + allocs(pre)
     outlives = False
-    owner = {}
+    owner = {st[1]: -2 for st in pre if st[0] == ":a"}
     cross = False
     for ti, t in enumerate(tests):
         for st in t[0]:
@@ -262,6 +300,7 @@ def nontrivial(s):
                 owner[st[1]] = -1
             elif st[0] == ":f":
                 owner.pop(st[1], None)
+        base += allocs(t[0])
         ex = executed(t)
         if leaked(base, ex):
             outlives = True
@@ -274,34 +313,40 @@ def nontrivial(s):
                 owner.pop(st[1], None)
             elif st[0] == ":e":
                 cross = True
+        base += allocs(ex)
     return outlives and cross
 
 
 def classify(s):
-    mode, tbd, tests, tail = parse(s)
-    lab = ["mode:%d" % mode, "tests:" + ("1" if len(tests) == 1 else "2-4" if len(tests) <= 4 else "5-8" if len(tests) <= 8 else ">8")]
-    base = 1
+    mode, tbd, pre, tests, tail = parse(s)
+    lab = ["mode:%d" % mode, "tests:" + ("0" if not tests else "1" if len(tests) == 1 else "2-4" if len(tests) <= 4 else "5-8" if len(tests) <= 8 else ">8")]
+    base = 1 + allocs(pre)
     kinds = set()
+    if pre:
+        kinds.add("before-plugin-allocation")
     for t in tests:
         base += allocs(t[0])
-        ex = executed(t)
-        L = leaked(base, ex)
-        own = sum(1 for st in ex if st[0] == ":x")
-        ign = any(st[0] == ":i" for st in ex)
-        d = declared(ex)
-        kinds.add("own-failed" if own else "ignore" if ign else
-                  "leaks=expected=0" if len(L) == d == 0 else "leaks=expected>0" if len(L) == d else "leaks>expected" if len(L) > d else "leaks<expected")
+        ex, L, own, ign, d, cls = test_facts(base, t)
+        kinds.add(cls)
         if own and len(L) != d:
             kinds.add("own-failed+leak")
         if t[0]:
             kinds.add("outside-allocation")
-        for p in range(1, 4):
+        if t[IPRE] or t[IPOST]:
+            kinds.add("inner-plugin-action")
+        if any(st[0] == ":x" for st in t[IPRE] + t[IPOST]):
+            kinds.add("inner-plugin-failure")
+        if sum(1 for st in ex if st[0] == ":e") > 1:
+            kinds.add("declared-twice")
+        if sum(1 for st in ex if st[0] == ":i") > 1:
+            kinds.add("ignore-twice")
+        for p in (SETUP, BODY, TEARDOWN):
             pe = upto_fail(t[p])[0]
-            if leaked(0, pe) and not (p == 2 and upto_fail(t[1])[1]):
-                kinds.add("alloc-in-phase-%d" % p)
+            if leaked(0, pe) and not (p == BODY and upto_fail(t[SETUP])[1]):
+                kinds.add("alloc-in-phase-%d" % (p - 1))
         base += allocs(ex)
     lab += sorted("test:" + k for k in kinds)
-    out = leaked(1, trace(tests, tail))
+    out = leaked(1 + allocs(pre), trace(tests, tail))
     lab.append("final:" + ("silent" if len(out) == tbd else "report"))
     return lab
 
@@ -310,23 +355,18 @@ def signature(s, o):
     if o.startswith("!"):
         return "crash " + o[:60]
     try:
-        mode, tbd, tests, tail = parse(s)
+        mode, tbd, pre, tests, tail = parse(s)
         t = o.split()
         i = 2
-        base = 1
+        base = 1 + allocs(pre)
         for ti, tt in enumerate(tests):
             nfail, nleak = int(t[i], 16), int(t[i + 1], 16)
             k = int(t[i + 5], 16)
             ents = [(int(t[i + 6 + 2 * j], 16), int(t[i + 7 + 2 * j], 16)) for j in range(k)]
             i += 6 + 2 * k
             base += allocs(tt[0])
-            ex = executed(tt)
-            L = leaked(base, ex)
-            own = sum(1 for st in ex if st[0] == ":x")
-            ign = any(st[0] == ":i" for st in ex)
-            d = declared(ex)
+            ex, L, own, ign, d, cls = test_facts(base, tt)
             want = own == 0 and not ign and len(L) != d
-            cls = "own-failed" if own else "ignore" if ign else "leaks=expected" if len(L) == d else "leaks>expected" if len(L) > d else "leaks<expected"
             if nleak != (1 if want else 0):
                 return "verdict wrong (%s leak failure) for a test with %s" % ("missing" if want else "unwanted", cls)
             if nfail != own + nleak:
@@ -340,31 +380,35 @@ def signature(s, o):
 
 
 def shrink(s):
-    mode, tbd, tests, tail = parse(s)
+    mode, tbd, pre, tests, tail = parse(s)
     cands = []
     for i in range(len(tests)):
-        cands.append((mode, tbd, tests[:i] + tests[i + 1:], tail))
+        cands.append((mode, tbd, pre, tests[:i] + tests[i + 1:], tail))
     if tail:
-        cands.append((mode, tbd, tests, []))
+        cands.append((mode, tbd, pre, tests, []))
+    if pre:
+        cands.append((mode, tbd, [], tests, tail))
     for i, t in enumerate(tests):
-        for p in range(4):
+        for p in range(6):
             for k in range(len(t[p])):
                 t2 = [list(x) for x in t]
                 del t2[p][k]
-                cands.append((mode, tbd, tests[:i] + [t2] + tests[i + 1:], tail))
+                cands.append((mode, tbd, pre, tests[:i] + [t2] + tests[i + 1:], tail))
     for k in range(len(tail)):
-        cands.append((mode, tbd, tests, tail[:k] + tail[k + 1:]))
+        cands.append((mode, tbd, pre, tests, tail[:k] + tail[k + 1:]))
+    for k in range(len(pre)):
+        cands.append((mode, tbd, pre[:k] + pre[k + 1:], tests, tail))
     if tbd:
-        cands.append((mode, 0, tests, tail))
+        cands.append((mode, 0, pre, tests, tail))
     for i, t in enumerate(tests):
-        for p in range(4):
+        for p in range(6):
             for k, st in enumerate(t[p]):
                 if st[0] == ":a" and st[2] > 1:
                     t2 = [list(x) for x in t]
                     t2[p][k] = (":a", st[1], 1, st[3])
-                    cands.append((mode, tbd, tests[:i] + [t2] + tests[i + 1:], tail))
+                    cands.append((mode, tbd, pre, tests[:i] + [t2] + tests[i + 1:], tail))
     for c in cands:
-        if py_valid(c[2], c[3]):
+        if py_valid(c[2], c[3], c[4]):
             yield fmt(*c)
 
 
